@@ -18,10 +18,12 @@ Inductive mut :=
 | MDropFk (t n:N).                (* foreign key removed *)
 
 
+(* not in the catalogue because the code does not detect them on SQLite (see the header of Model/Schema.v): CHECK constraints,
+   expression indexes, a change of / to / from a Computed default, comments *)
 Definition on_table (t:N) (f:table->table) (S:schema) : schema := kupdate t_name t f S.
-Definition with_cols (f:list col->list col) (tb:table) : table := mkTable (t_name tb) (f (t_cols tb)) (t_cons tb) (t_fks tb).
-Definition with_cons (f:list cons->list cons) (tb:table) : table := mkTable (t_name tb) (t_cols tb) (f (t_cons tb)) (t_fks tb).
-Definition with_fks (f:list fk->list fk) (tb:table) : table := mkTable (t_name tb) (t_cols tb) (t_cons tb) (f (t_fks tb)).
+Definition with_cols (f:list col->list col) (tb:table) : table := mkTable (t_name tb) (f (t_cols tb)) (t_cons tb) (t_fks tb) (t_uuqs tb).
+Definition with_cons (f:list cons->list cons) (tb:table) : table := mkTable (t_name tb) (t_cols tb) (f (t_cons tb)) (t_fks tb) (t_uuqs tb).
+Definition with_fks (f:list fk->list fk) (tb:table) : table := mkTable (t_name tb) (t_cols tb) (t_cons tb) (f (t_fks tb)) (t_uuqs tb).
 (* the changed model states the new nullability explicitly *)
 Definition flip_null (x:col) : col := mkCol (c_name x) (c_ty x) (negb (c_null x)) (c_pk x) (c_default x) true.
 Definition set_ty (y:ty) (x:col) : col := mkCol (c_name x) y (c_null x) (c_pk x) (c_default x) (c_null_set x).
@@ -76,12 +78,12 @@ Definition enabled (g:cfg) (m:mut) : bool :=
   match m with MChangeType _ _ _ => compare_type g | MChangeDefault _ _ _ => compare_server_default g | _ => true end.
 
 (* ---------------------------------------------------------------- what an operation is about *)
-Inductive objref := RTable (t:N) | RColumn (t c:N) | RCons (t n:N) | RFk (t n:N).
+Inductive objref := RTable (t:N) | RColumn (t c:N) | RCons (t n:N) | RFk (t n:N) | RUUq (t h:N).
 Definition objref_eqb (a b:objref) : bool :=
   match a, b with
   | RTable t, RTable t' => N.eqb t t'
   | RColumn t c, RColumn t' c' => N.eqb t t' && N.eqb c c'
-  | RCons t n, RCons t' n' | RFk t n, RFk t' n' => N.eqb t t' && N.eqb n n'
+  | RCons t n, RCons t' n' | RFk t n, RFk t' n' | RUUq t n, RUUq t' n' => N.eqb t t' && N.eqb n n'
   | _, _ => false
   end.
 Definition op_target (o:op) : objref :=
@@ -94,6 +96,7 @@ Definition op_target (o:op) : objref :=
   | OpDropCons t _ n => RCons t n
   | OpAddFk t f => RFk t (f_name f)
   | OpDropFk t n _ => RFk t n
+  | OpAddUUq t u => RUUq t (u_h u)
   end.
 Inductive opkind := KCreateTable | KDropTable | KAddColumn | KDropColumn | KAlterNullable | KAlterType | KAlterDefault
                   | KAddIndex | KAddUq | KDropIndex | KDropUq | KAddFk | KDropFk.
@@ -175,6 +178,7 @@ Definition model_C07 (i:c07_in) : c07_out :=
 Definition corr_C07 (i:c07_in) (out:c07_out) : bool :=
   list_forall2b (fun m r => cfg_eqb (fst m) (fst r) && ops_equiv (snd m) (snd r)) (model_C07 i) out.
 Definition inclass_C07 (i:c07_in) : bool :=
+  no_unnamed_uq (fst i) && no_unnamed_uq (apply_mut (snd i) (fst i)) &&
   wf_schemab (fst i) && applicable (snd i) (fst i) && wf_schemab (apply_mut (snd i) (fst i))
   && defaults_ok (fst i) && defaults_ok (apply_mut (snd i) (fst i))
   && forallb (fun t => sigs_distinct (t_cons t)) (fst i) && forallb (fun t => sigs_distinct (t_cons t)) (apply_mut (snd i) (fst i)).
